@@ -62,12 +62,17 @@ func c12nGen(cw *caseWriter, tier string, r *rng) {
 						for i := uint64(2); i <= s; i++ {
 							data = append(data, 300+i)
 						}
-						g.events = [][]uint64{
+						g.events = nil
+						if (flen+s)%3 == 0 && len(data) > 1 {
+							// a first transfer that breaks off early (half the content, Size says more): refused without trace
+							g.events = append(g.events, evInstall(3, 3, 3, s, 3, cfgSAB, 1, data[:len(data)/2], true, 0, nil))
+						}
+						g.events = append(g.events,
 							evInstall(3, 3, 3, s, 3, cfgSAB, 1, data, false, 0, nil),
 							evAppend(3, 3, 3, s, 3, [][4]uint64{mk(s+1, 3, 0, 300+s+1)}, s+1, 0, nil),
 							evAppend(3, 3, 3, s+1, 3, nil, s+1, 0, nil),
 							evRestart(), evDecision(),
-						}
+						)
 						nsRun(cw, cw.tag("p"), g.encode(), func(tag string, in, obs []uint64) {
 							c12monitor(cw)(tag, in, obs)
 							c10monitor(cw)(tag, in, obs)
